@@ -97,6 +97,10 @@ def tasks(ctx, quick):
     def add(t):
         t["id"] = "t%d" % len(items)
         items.append(t)
+    for j in range(24 if quick else 240):
+        a, b = rng.sample(WITH_DENS, 2)
+        add({"kind": "mix", "mode": "weight", "comps": [[["str", a], 1], [["str", b], 1]],
+             "near_integer": [rng.choice([1, 2, 3, 5, 12]), rng.choice([4e-7, -4e-7, 2e-7, 9e-7, -1e-7, 3e-8])]})
     n = 250 if quick else 3000
     quantities = [1, 1, 2, 10, 0.5, 1000, 1e-3, 1e-6, 0, 37.5, 1e5]
     for i in range(n):
